@@ -32,7 +32,7 @@ def harness_died(ctx, plan, e):
 
 
 PLANS = {}
-HOOK_COMMITS = []
+HOOK_COMMITS = ["d035787"]  # quadtree/verif_walk.go (new file, //go:build verif)
 NOT_BUILT = {}
 
 # ---- C09 -------------------------------------------------------------------------------------------
@@ -58,4 +58,28 @@ PLANS["C09"] = dict(
     assumptions=["coordinates are multiples of 1/4 below 8, for which the float64 slope comparison in rayIntersect is exact",
                  "TLC evaluates Exact2D!InRingEO in exact integer arithmetic"],
     trusted_base=["TLC 2026.09.04", "CommunityModules Json/IOUtils", "harness projection int/4 -> float64 (exact)"],
+)
+
+# ---- C07 -------------------------------------------------------------------------------------------
+
+
+def run_c07(ctx):
+    ctx.mc("ClipLineMC", "ClipLineMC_%s.cfg" % ctx.tier,
+           note="Cohen-Sutherland transcription refines segment/\\box maximal chains; in-box, on-input, idempotence, inside-as-is")
+    shards = ctx.gen("clipline")
+    ctx.validate("ClipLine_Trace", shards)
+    ctx.exhaustive = True
+    ctx.notes.append("exhaustive part: every path of <=3 vertices on the 5x5 grid x 9 boxes x {closed, open} (quick); "
+                     "7x7 grid x 100 boxes for <=2 vertices and a seeded sixth of the boxes for 3 vertices (thorough)")
+
+
+PLANS["C07"] = dict(
+    run=run_c07, signature=sig_default,
+    technique="TLA+ spec of 'segment /\\ closed box, maximal chains' (exact lattice arithmetic); TLC model-checks the Cohen-Sutherland design against it and validates traces of the real clip.LineString/MultiLineString/Geometry calls",
+    level_text="TLC exhaustively checks that the transcription of clip.line() refines the declarative specification (pieces = maximal chains of per-segment box parts, open option = closure of the strictly-inside part) for every box and every path of <=3 vertices on a 5x5 (quick) / 7x7 (thorough) grid, and judges every output of the real code on those domains plus seeded 12-vertex paths on a 9x9 grid (repeats, runs along edges, corner crossings), re-clipped pieces, the multi-line and generic entry points, and input immutability.",
+    level_note="Inputs live on integer grids; outputs are projected to the 1/60 (1/840) lattice on which every crossing is exact, residual > 1e-7 lattice units is an 'offlattice' event the spec rejects. Consecutive duplicate vertices and zero-length touch pieces are normalised away (the statement allows them). General-position floats are not covered. Trusted: TLC, Json module, the lattice projection.",
+    rule="one event = one real clip call (box, input paths, option, output pieces); non-trivial = output non-empty and different from the input (the box cut something); distinct = distinct event text",
+    assumptions=["every crossing of an input segment with a box line is a lattice point (asserted by the trace spec per event)",
+                 "float64 interpolation error on these lattices is < 1e-7 lattice units (residual checked per vertex)"],
+    trusted_base=["TLC 2026.09.04", "CommunityModules Json/IOUtils", "harness lattice projection (quant)"],
 )
